@@ -4,7 +4,7 @@
      Extract Inductive prod => "( * )" [ "" ].           Extract Inductive sumbool => bool [ true false ].
      Extract Inductive sumor => option [ Some None ].    Extract Inlined Constant andb/orb/negb/fst/snd.
    nat, positive, N, Z, Q stay extracted inductive types.  No Extract Constant of our own. *)
-From Coq Require Import List PArith FMapPositive Bool.
+From Coq Require Import List PArith FMapPositive Bool QArith Qreduction.
 Require Import NV.Base NV.Shell2 NV.EstimExec NV.Union2 NV.PriorModel NV.PriorAsIs NV.Crash.
 From Coq Require Extraction ExtrOcamlBasic.
 
@@ -22,5 +22,6 @@ Definition step_t (t : tbl) (nb : nat) := Shell2.step (t_contains t) (t_cube t) 
 Extraction "shell.ml" step_t t_add t_empty Shell2.init.
 Extraction "estim.ml" EstimExec.Ztot EstimExec.neffQ EstimExec.volQ EstimExec.mkSh EstimExec.mkDy.
 Extraction "union.ml" Union2.ustep.
-Extraction "prior.ml" PriorModel.add_parameter PriorAsIs.add_asis PriorModel.dimensionality PriorModel.empty.
+Extraction "prior.ml" PriorModel.add_parameter PriorAsIs.add_asis PriorModel.dimensionality PriorModel.empty
+  PriorModel.unit_to_physical PriorModel.unit_to_dictionary QArith_base.Qplus QArith_base.Qmult QArith_base.Qminus Qreduction.Qred.
 Extraction "crash.ml" Crash.atomic_trace.
